@@ -190,6 +190,17 @@ def two_dictionaries(B, G, n, strings):
                             acc = acc + Ud[r][i] * O.cplx(rr[i, j], ri[i, j]) * O.conj(Ud[c][j])
                     G.eq("round%d.rotate_rho[%s][%d,%d].re" % (rnd, bs, r, c), rr_out[0, r, c], O.re(acc))
                     G.eq("round%d.rotate_rho[%s][%d,%d].im" % (rnd, bs, r, c), rr_out[1, r, c], O.im(acc))
+            if rnd == 0:
+                # a state BUILT with this dictionary: explicit psi / rho and no dictionary in the call -> the state's own one is used
+                own = nn.ComplexWaveFunction(n, 1, unitary_dict=ud, gpu=False)
+                f_own = B.scalars(U_.rotate_psi(own, list(bs), space, psi=psi))
+                r_own = B.scalars(U_.rotate_rho(own, list(bs), space, rho=rho))
+                ip_own = B.scalars(U_.rotate_psi_inner_prod(own, list(bs), space, psi=psi))
+                for r in range(D):
+                    G.eq("state_dictionary.rotate_psi[%s][%d].re" % (bs, r), f_own[0, r], full[0, r])
+                    G.eq("state_dictionary.rotate_psi[%s][%d].im" % (bs, r), f_own[1, r], full[1, r])
+                    G.eq("state_dictionary.inner_prod[%s][%d].re" % (bs, r), ip_own[0, r], full[0, r])
+                    G.eq("state_dictionary.rotate_rho[%s][%d,%d].re" % (bs, r, D - 1 - r), r_own[0, r, D - 1 - r], rr_out[0, r, D - 1 - r])
             ip3 = B.scalars(U_.rotate_psi_inner_prod(st, list(bs), C.rows_tensor(B, rows3), psi=psi, unitaries=ud))
             for k, row in enumerate(rows3):
                 idx = int("".join(map(str, row)), 2)
